@@ -140,10 +140,35 @@ func c03Case(r *evid.Run, tier string, idx int, g *rng.R) {
 		return []xsel.ContextApply{xsel.WithVariable("fwd", f), xsel.WithVariable("rev", mkRev()), xsel.WithVariable("half", f[:len(f)/2]), xsel.WithVariable("shuf", sh)}
 	}
 
+	// half of the reference-cursor cases query through a view that allocates a fresh cursor value
+	// each time a node is reached: identity is Pos(), as the Cursor contract says
+	lazy := w.ref && idx%8 == 7
+	if lazy {
+		r.Count("cases_on_lazily_allocated_cursors", 1)
+	}
 	run := func(class string, ctx *adoc.Node, e xast.Expr) (refeval.Value, xsel.NodeSet, bool) {
 		s := xast.String(e)
 		opts := append(append([]xsel.ContextApply{}, w.opts...), binds()...)
-		res, err := ExecStr(w.m.ToC[ctx], s, opts...)
+		start := w.m.ToC[ctx]
+		if lazy {
+			start = bridge.LazyOf(start)
+			class = "lazy-cursors/" + class
+		}
+		res, err := ExecStr(start, s, opts...)
+		if rs, ok := res.(xsel.NodeSet); ok && lazy {
+			// strictly monotone Pos() first (two values of one node have equal Pos), then canonical values
+			for i := 1; i < len(rs); i++ {
+				if rs[i].Pos() == rs[i-1].Pos() {
+					r.Violate(class+"/duplicate", map[string]any{"case": idx, "what": fmt.Sprintf("%s from %s: the node with Pos() %d occurs twice in the result (%s)", s, ctx.Path(), rs[i].Pos(), posSeq(rs)), "document": d.Dump()})
+					return nil, nil, false
+				}
+			}
+			cn := make(xsel.NodeSet, len(rs))
+			for i, c := range rs {
+				cn[i] = bridge.Canon(c)
+			}
+			res = cn
+		}
 		r.Eval(1)
 		want, werr := w.modelEval(ctx, e)
 		if err != nil || werr != nil {
